@@ -2,12 +2,13 @@
    tree into arguments of a model function and encodes the result.  Function numbers
    are read by tools/harness/model.py from the "FN <n> <name>" comments below. *)
 From P7 Require Import Prelude PyPrims Number Crc32 Header HeaderCodec.
+From P7 Require Path ExtractFS Assign Select RSession WSession Par Events Trace Cli Mode Mem Enc Toy.
 Open Scope Z_scope.
 
 Definition t_optpair {A} (f : A -> tree) (o : option (A * bytes)) : tree :=
   match o with Some (a, r) => TL [f a; t_bytes r] | None => TL [] end.
 
-Definition dispatch (fn : Z) (a : tree) : tree :=
+Definition base_dispatch (fn : Z) (a : tree) : tree :=
   match fn with
   (* FN 1 crc32_update : (v bytes) -> int *)
   | 1 => TI (crc32_update (of_TI (tnth a 0)) (of_bytes (tnth a 1)))
@@ -23,3 +24,22 @@ Definition dispatch (fn : Z) (a : tree) : tree :=
   | 12 => t_res (fun '(v, r) => TL [TI v; t_bytes r]) (rd_number (of_bytes a))
   | _ => TL [TI (-2)]
   end.
+
+(* number ranges owned by the model files *)
+Definition dispatch (fn : Z) (a : tree) : tree :=
+  if fn <? 100 then base_dispatch fn a
+  else if fn <? 120 then Path.path_dispatch fn a
+  else if fn <? 160 then ExtractFS.fs_dispatch fn a
+  else if fn <? 180 then Assign.assign_dispatch fn a
+  else if fn <? 200 then Select.select_dispatch fn a
+  else if fn <? 220 then RSession.rsession_dispatch fn a
+  else if fn <? 240 then WSession.wsession_dispatch fn a
+  else if fn <? 260 then Par.par_dispatch fn a
+  else if fn <? 280 then Events.events_dispatch fn a
+  else if fn <? 300 then Trace.trace_dispatch fn a
+  else if fn <? 320 then Cli.cli_dispatch fn a
+  else if fn <? 340 then Mode.mode_dispatch fn a
+  else if fn <? 360 then Mem.mem_dispatch fn a
+  else if fn <? 380 then Enc.enc_dispatch fn a
+  else if fn <? 400 then Toy.toy_dispatch fn a
+  else TL [TI (-2)].
